@@ -31,15 +31,15 @@ def check_generics_kept_unconditionally(S, rule):
     """the event site's own type-to-text converter keeps the generic arguments of *every* path type: the branch that appends `<args>` depends only on
     there being arguments, never on the name of the type (a whitelist of containers silently turns the others into bare names).
     Shared by C12-D7 and C05-D6 (fourth sibling of the three type_to_string renderers)."""
-    etn = S.fn("EventParser", "extract_type_name")
+    etn = find_type_namer(S)
     if etn is None:
         rule.bad(V(rule.id, "<anchor>", "missing:extract_type_name", "anchor not found"))
         return
     found = False
-    for e in walk_block(etn.body):
+    for e in walk_block(etn.body, (etn.name,)):
         if e.get("k") != "if":
             continue
-        fmts = [x for x in walk_block(e["then"]) if x.get("k") == "macro" and x["name"] == "format" and x.get("args") and lit_str(x["args"][0]) and "<{}>" in lit_str(x["args"][0]).replace(" ", "")]
+        fmts = [x for x in walk_block(e["then"], (etn.name,)) if x.get("k") == "macro" and x["name"] == "format" and x.get("args") and lit_str(x["args"][0]) and "<{}>" in lit_str(x["args"][0]).replace(" ", "")]
         if not fmts:
             continue
         if e["cond"].get("k") == "letcond":
@@ -55,12 +55,17 @@ def check_generics_kept_unconditionally(S, rule):
         for x in walk_block(etn.body):
             pass
         from srclib import stmt_exprs as _se, pat_bindings as _pb
+        _seen_lists = set()
+
         def lets(stmts):
+            if id(stmts) in _seen_lists:
+                return          # a self-recursive helper that the walk looks through: its body was already visited
+            _seen_lists.add(id(stmts))
             for st in stmts or []:
                 if isinstance(st, dict) and st.get("k") == "let" and st.get("init") is not None:
                     yield st
                 for e2 in (_se(st) if isinstance(st, dict) else []):
-                    for y in walk(e2):
+                    for y in walk(e2, (etn.name,)):
                         for key in ("then", "stmts", "body"):
                             v = y.get(key)
                             if isinstance(v, list):
@@ -71,7 +76,7 @@ def check_generics_kept_unconditionally(S, rule):
                                     yield from lets(arm["body"]["stmts"])
         for st in lets(etn.body):
             if set(_pb(st["pat"])) & set(locals_):
-                if any((y.get("k") == "lit" and y["lit"]["t"] == "str") or (y.get("k") == "macro" and y["name"] == "matches") for y in walk(st["init"])):
+                if any((y.get("k") == "lit" and y["lit"]["t"] == "str") or (y.get("k") == "macro" and y["name"] == "matches") for y in walk(st["init"], (etn.name,))):
                     by_name_local = True
         if named or by_name_local:
             rule.bad(V(rule.id, "EventParser::extract_type_name", "generic-arguments-kept-by-name", "generic arguments are kept only under `%s`, a test on the type's name: any other generic type (BTreeMap<K, V>, a user type) degrades to its bare name at the event-payload site" % ct[:80]))
@@ -143,6 +148,23 @@ def check_event_uniqueness(P, r6):
             r6.ok("generated identifiers are made unique")
         else:
             r6.bad(V(r6.id, f.id, "no-uniqueness-by-identifier", "no uniqueness step keyed on the generated function name: `ev-one` and `ev_one` both become onEvOne"))
+
+
+def find_type_namer(S):
+    """the function that turns the syn::Type of a parameter / annotated binding into the text kept in the event parser's symbol table:
+    EventParser::extract_type_name, or — after a move / rename — the one new function `(&syn::Type) -> String` of the analysis modules"""
+    fn = S.fn("EventParser", "extract_type_name")
+    if fn is not None:
+        return fn
+    import srclib as _sl
+    cands = []
+    for g in _sl._NEW_HELPERS.values():
+        if g.body is None or re.sub(r"\s+", "", g.sig.get("ret") or "") != "String" or "src/analysis/" not in g.file:
+            continue
+        ps = [p_ for p_ in g.sig.get("params", []) if not p_.get("self")]
+        if len(ps) == 1 and re.fullmatch(r"&(syn::)?Type", re.sub(r"\s+", "", ps[0].get("ty") or "")):
+            cands.append(g)
+    return cands[0] if len(cands) == 1 else None
 
 
 def check_every_emit_recorded(P, rule):
@@ -656,7 +678,7 @@ def check(ctx):
             else:
                 r7.bad(V(r7.id, "EventParser::infer_payload_type", "no-arm:%s" % need, "payload form %s is not handled" % need))
     check_generics_kept_unconditionally(S, r7)
-    etn = S.fn("EventParser", "extract_type_name")
+    etn = find_type_namer(S)
     if etn is None:
         r7.bad(V(r7.id, "<anchor>", "missing:extract_type_name", "anchor not found"))
     else:
